@@ -21,6 +21,7 @@ package reader
 import (
 	"context"
 	"sync"
+	"sync/atomic"
 
 	"github.com/cockroachdb/errors"
 	"github.com/samber/lo"
@@ -72,6 +73,7 @@ type CollectionReader struct {
 	shouldReadFunc         ShouldReadFunc
 	startOnce              sync.Once
 	quitOnce               sync.Once
+	quitted                atomic.Bool
 
 	retryOptions []retry.Option
 }
@@ -130,7 +132,7 @@ func (reader *CollectionReader) StartRead(ctx context.Context) {
 				collectionLog.Warn("fail to start to replicate the collection data in the watch process", zap.Any("info", info), zap.Error(err))
 				reader.sendError(err)
 			}
-			reader.replicateCollectionMap.Store(info.ID, info)
+			reader.recordCollection(ctx, info)
 			collectionLog.Info("has started to read collection")
 			return true
 		})
@@ -282,7 +284,7 @@ func (reader *CollectionReader) StartRead(ctx context.Context) {
 				readerLog.Warn("fail to start to replicate the collection data", zap.Any("collection", info), zap.Error(err))
 				reader.sendError(err)
 			}
-			reader.replicateCollectionMap.Store(info.ID, info)
+			reader.recordCollection(ctx, info)
 		}
 		_, err = reader.metaOp.GetAllPartition(ctx, func(info *pb.PartitionInfo) bool {
 			if _, ok := repeatedCollectionID[info.CollectionId]; ok {
@@ -341,6 +343,18 @@ func (reader *CollectionReader) StartRead(ctx context.Context) {
 	})
 }
 
+// recordCollection remembers a started collection for QuitRead. A start can still be in flight when QuitRead goes through
+// the map (the error of an earlier collection has paused the task, or the user has), so it's stopped here in that case.
+func (reader *CollectionReader) recordCollection(ctx context.Context, info *pb.CollectionInfo) {
+	reader.replicateCollectionMap.Store(info.ID, info)
+	if !reader.quitted.Load() {
+		return
+	}
+	if err := reader.channelManager.StopReadCollection(ctx, info); err != nil {
+		log.Warn("fail to stop read collection", zap.String("id", reader.id), zap.Error(err))
+	}
+}
+
 func (reader *CollectionReader) sendError(err error) {
 	select {
 	case reader.errChan <- err:
@@ -352,6 +366,7 @@ func (reader *CollectionReader) sendError(err error) {
 
 func (reader *CollectionReader) QuitRead(ctx context.Context) {
 	reader.quitOnce.Do(func() {
+		reader.quitted.Store(true)
 		reader.replicateCollectionMap.Range(func(_ int64, value *pb.CollectionInfo) bool {
 			err := reader.channelManager.StopReadCollection(ctx, value)
 			if err != nil {
